@@ -374,7 +374,10 @@ class IPPO(MultiAgentRLAlgorithm):
         :rtype: torch.Tensor[float] or dict[str, torch.Tensor[float]] or Tuple[torch.Tensor[float], ...]
         """
         preprocessed = {homo_id: [] for homo_id in self.shared_agent_ids}
-        for agent_id, obs in observation.items():
+        # Agents of a group are batched in the order of self.agent_ids (the order that
+        # disassemble_homogeneous_outputs assumes), not in the order of the dictionary
+        for agent_id in sorted(observation.keys(), key=self._agent_position):
+            obs = observation[agent_id]
             homo_id = self.get_homo_id(agent_id)
             preprocessed[homo_id].append(
                 preprocess_observation(
